@@ -423,7 +423,14 @@ fn build_layout(root: &Path, case: &Case, lay: &Layout) -> (Vec<String>, Vec<Str
     (paths, req)
 }
 
+/// runs that did not end because of a FIFO: after two of them no more FIFOs are planted (every
+/// further one would cost the whole time limit again; the failure is already reported)
+static HANGS: std::sync::atomic::AtomicUsize = std::sync::atomic::AtomicUsize::new(0);
+
 fn mkfifo(p: &Path) {
+    if HANGS.load(std::sync::atomic::Ordering::Relaxed) >= 2 {
+        return;
+    }
     let c = std::ffi::CString::new(p.to_str().unwrap()).unwrap();
     unsafe {
         libc::mkfifo(c.as_ptr(), 0o644);
@@ -498,7 +505,10 @@ fn run_layout(root: &Path, case: &Case, lay: &Layout) -> LayoutRun {
     });
     let res = match drx.recv_timeout(std::time::Duration::from_secs(20)) {
         Ok(r) => r,
-        Err(_) => Err("producer() did not return within 20 s (blocked on an input that is not a file?)".to_string()),
+        Err(_) => {
+            HANGS.fetch_add(1, std::sync::atomic::Ordering::Relaxed);
+            Err("producer() did not return within 20 s (blocked on an input that is not a file?)".to_string())
+        }
     };
     let mut items: Vec<(String, String)> = vec![];
     while let Ok(x) = receiver.try_recv() {
@@ -785,6 +795,9 @@ fn cli_oracle(dir: &Path, case: &Case) -> Option<OracleFail> {
             limit: std::time::Duration::from_secs(20),
             extra,
         });
+        if out.exit.is_none() {
+            HANGS.fetch_add(1, std::sync::atomic::Ordering::Relaxed);
+        }
         if out.exit != Some(0) {
             return Some(OracleFail {
                 finding: None, class: "cli-exit",
@@ -967,7 +980,8 @@ fn process(rep: &mut Report, pend: &mut Vec<Pending>, case: Case, idx: u64, stre
         oracle_failed = true;
         // minimise the first few failures of each kind (each step rebuilds and reruns both layouts)
         let seen = rep.failures.iter().filter(|x| x.finding.as_deref() == f.finding).count();
-        if seen < if f.finding.is_some() { 2 } else { 6 } {
+        let hang = f.what.contains("did not return within") || f.what.contains("no end within");
+        if !hang && seen < if f.finding.is_some() { 2 } else { 6 } {
             let min = shrink(&dir, &case, f.finding, f.class);
             let e2 = evaluate(&dir, &min);
             let what = e2.fail.map(|f| f.what).unwrap_or_else(|| f.what.clone());
